@@ -83,7 +83,7 @@ func pick[T any](r *core.Rand, xs []T) T { return xs[r.Intn(len(xs))] }
 // ---- knobs ------------------------------------------------------------------------
 
 func baseKnobs(r *core.Rand, nodes int) Knobs {
-	k := Knobs{Nodes: nodes, ShardNum: pick(r, []int{1, 2, 8, 64}), SegmentKiB: pick(r, []int{4, 8, 16, 64}),
+	k := Knobs{Nodes: nodes, ShardNum: pick(r, []int{1, 2, 8, 64}), SegmentKiB: pick(r, []int{4, 8, 16, 64}), HandlerGate: r.Bool(0.5),
 		MaxSteps: 2000, WDeliver: 10, WTick: pick(r, []int{1, 3, 3, 6, 12}), WClient: pick(r, []int{3, 6, 6, 12}),
 		OpTimeoutTicks: pick(r, []int{25, 40, 60}), LivenessS: 60,
 		SnapCount: 10000, CatchUpN: 10000}
@@ -976,6 +976,7 @@ func genRace(rng *core.Rand, env *core.Env, run int) *Scenario {
 	}
 	sc := &Scenario{Kind: env.Property, Variant: "race", Knobs: baseKnobs(r, nodes), Aim: isAimRun(run)}
 	k := &sc.Knobs
+	k.HandlerGate = false // free-running phase: nobody would release a parked handler
 	k.OpTimeoutTicks = 1 << 20
 	k.WTick = 3
 	switch {
